@@ -49,3 +49,20 @@ func RunReplay[C any](t *testing.T, id string, c C, check func(C) Outcome) {
 	}
 	Eval(t, id, "replay", c, check)
 }
+
+// RunSharded evaluates n generated cases (nQuick / nThorough by tier) of one generator, split
+// over the VERIF_SHARD / VERIF_SHARDS processes; case i is g.Example(seed*1000003+i).
+func RunSharded[C any](t *testing.T, id string, nQuick, nThorough int, g *rapid.Generator[C], check func(C) Outcome) {
+	shard, shards := EnvInt("VERIF_SHARD", 0), max(1, EnvInt("VERIF_SHARDS", 1))
+	seed := EnvInt("VERIF_SEED", 1)
+	n := nQuick
+	if Thorough() {
+		n = nThorough
+	}
+	for i := 0; i < n; i++ {
+		if i%shards != shard {
+			continue
+		}
+		Eval(t, id, "quota", g.Example(seed*1000003+i), check)
+	}
+}
